@@ -2,8 +2,8 @@
    Only statements, each closed by [exact <lemma>] and followed by Print Assumptions.
    Notation: *E = Eigen (matrix-expression) branch of POMDP/Utils.hpp, *Q = query-loop branch run on a
    query model g with [repr g m] (g answers m's tables); tau_step is Base.Mdp's unnormalised filter. *)
-From Coq Require Import List Arith QArith.
-From AIT Require Import Base.Qx Base.Mdp C05.Model C05.Spec C05.ProofsWf C05.ProofsMain.
+From Coq Require Import List Arith QArith Lia.
+From AIT Require Import Base.Qx Base.Mdp C05.Model C05.Spec C05.ProofsWf C05.ProofsMain C05.ProofsSparse.
 Import ListNotations.
 Local Open Scope Q_scope.
 
@@ -114,6 +114,25 @@ Theorem wf_checker_sound : forall m, wf_pomdpb m = true -> wf_pomdp m.
 Proof. exact wf_pomdpb_sound. Qed.
 Print Assumptions wf_checker_sound.
 
+(* sparse library models (tables sparsified with the 1e-6 threshold): when every entry is zero or above
+   the threshold, all Eigen-branch functions give the dense model's results.  (The general statement with
+   an explicit error term for dropped entries is not proved; see notes/C05.md.) *)
+Theorem sparse_path_exact : forall m b v a o, sparse_safe m ->
+  veq (partialE (sparse_of m) b a) (partialE m b a) /\
+  veq (unnormE (sparse_of m) b a o) (unnormE m b a o) /\
+  xveq (updateE (sparse_of m) b a o) (updateE m b a o) /\
+  veq (punnormE (sparse_of m) v a o) (punnormE m v a o) /\
+  xveq (pnormE (sparse_of m) v a o) (pnormE m v a o) /\
+  meq (sosaE (sparse_of m) a o) (sosaE m a o) /\
+  rewE (sparse_of m) b a == rewE m b a.
+Proof. exact sparse_exact_lemma. Qed.
+Print Assumptions sparse_path_exact.
+
+Theorem sparse_safe_entries : forall x, (safe_entry x <-> (x == 0 \/ epsS < qabs x)) /\
+  (x == 0 \/ (1 # 524288) <= x -> safe_entry x).
+Proof. exact (fun x => conj (safe_entry_iff x) (safe_entry_big x)). Qed.
+Print Assumptions sparse_safe_entries.
+
 (* oracle side: the reduced-fraction twins the driver executes equal the spec, and the boolean
    checkers it runs on the implementation's outputs are sound *)
 Theorem spec_twins : forall m b a o r3,
@@ -145,3 +164,6 @@ Example ex_values :
   veqb (unnormE ex_m ex_b 0 1) [0; 0; (3#4) * ((1#2)*(3#4) + (1#4)*(7#8))] = true /\
   veqb (unnormQ ex_g ex_b 0 1) (tau_step ex_m ex_b 0 1) = true.
 Proof. split; vm_compute; reflexivity. Qed.
+
+Example ex_sparse_safe : sparse_safe ex_m.
+Proof. repeat split; repeat (constructor; try (apply safe_entry_big; (left; reflexivity) || (right; unfold Qle; cbn; lia))). Qed.
